@@ -343,3 +343,14 @@ CLAIMED.update({
          "note": STD_NOTE + ORDER_NOTE,
          "technique": "static analysis: evaluation of extracted slot functions over finite argument/state domains (K6), twin comparison of read/write siblings (K7), guard rule for enable slots (K4)"},
 })
+CLAIMED.update({
+ "C25": {"level": "other",
+         "text": "Structure that makes the HTTP size limits enforceable, on every path of http.c: headers_size/body_size are only ever increased (plain stores are the named initialisers); "
+                 "every transfer of body bytes into the request's input buffer is counted in body_size with the very amount moved (directly or through the chunk size recorded at the "
+                 "chunk header); after every increase no path reaches a delivery (chunk callback, connection done, further header parsing) without a comparison against the matching "
+                 "limit, or the increase is preceded by the comparison of the new total, and the failing edge fails the connection / returns DATA_TOO_LONG; wrap-around tests dominate "
+                 "the additions; a declared Content-Length above the limit never reaches a body read; the four limit setters map negative to unlimited (evaluated). "
+                 "Declined: 'never delivers more than the limit' over every segmentation, bound on buffering.",
+         "note": STD_NOTE,
+         "technique": "static analysis: monotone-counter store rule (K2/K4), amount provenance pairing (K8), must-pass-through between accumulation and delivery (K3), dominating guards (K4), evaluation of setters (K6)"},
+})
